@@ -8,12 +8,39 @@ From Coq Require Import Permutation.
 From Verif Require Import Bytes BytesFacts ListDS SetDS SetFacts.
 From VerifGo Require Import GoSem.
 From VerifGen Require Import GoSet.
-From Coq Require Import Strings.String Lia.
+From Coq Require Import Strings.String Lia ZifyBool.
 Open Scope Z_scope.
 
 (* ====================================================================== *)
 (** * GoSem lemmas (general facts about the combinators of GoSem.v)        *)
 (* ====================================================================== *)
+
+(** ** case analysis that does not depend on the shape of a test
+
+    (the same tactics as in GoListFacts.v, repeated here so that this file
+    depends on the translation of ds/set only)  [go_case] picks the first
+    [if] of the goal and case-splits on one of its ATOMIC tests, descending
+    through [&&], [||], [negb]; [go_cases] repeats this and lets [lia] discard
+    the impossible branches.  Swapping the operands of a connective, reversing
+    a comparison ([len(x) == 0] against [len(x) < 1]) or negating a test and
+    swapping the branches does not affect a script written with them. *)
+Ltac bool_atom c :=
+  lazymatch c with
+  | andb ?a ?b => first [bool_atom a | bool_atom b]
+  | orb ?a ?b => first [bool_atom a | bool_atom b]
+  | negb ?a => bool_atom a
+  | true => fail
+  | false => fail
+  | context [if ?d then _ else _] => bool_atom d
+  | _ => destruct c eqn:?
+  end.
+
+Ltac go_case :=
+  match goal with
+  | |- context [if ?c then _ else _] => bool_atom c; cbn [andb orb negb gbind fst snd]
+  end.
+
+Ltac go_cases := repeat (go_case; try (exfalso; lia)).
 
 (** ** the monad *)
 
@@ -392,11 +419,14 @@ Proof.
   set (g := fun (acc : list (bytes * unit)) (x : bytes) => adel acc x).
   destruct (lookup_cases (Set_M s) key) as [[inner [La [Hk [L0 Ls]]]] | [La [Hk Ls]]];
     rewrite Hk, Ls; cbn [negb gbind].
-  - rewrite gidx_head. cbn [gbind]. rewrite zlen_eqb_0.
+  - rewrite gidx_head. cbn [gbind].
     destruct i0 as [|c i0].
-    + eexists. eexists. split; [reflexivity|]. cbn [fst snd].
+    + change (zlen (@nil Byte.byte)) with 0. go_cases.
+      eexists. eexists. split; [reflexivity|]. cbn [fst snd].
       split; [reflexivity|]. split; [|exact W]. split; discriminate.
-    + rewrite (grange_fold _ (supd key g)) by (intros i x st; reflexivity).
+    + assert (Hpos : 0 < zlen (c :: i0)) by (unfold zlen; cbn [List.length]; lia).
+      go_cases.
+      rewrite (grange_fold _ (supd key g)) by (intros i x st; reflexivity).
       cbn [gbind].
       destruct (supd_loop_result key g (fun acc x => bremove x acc) ((c :: i0) :: items) s inner
                   fold_adel_fst fold_bremove_NoDup La W) as [Hm Hw].
@@ -612,8 +642,12 @@ Proof.
   intros Hm W. unfold go_Set_SPop. rewrite go_SHasKey_eq. unfold s_haskey, s_spop.
   destruct (lookup_cases (Set_M s) key) as [[inner [La [Hk [L0 Ls]]]] | [La [Hk Ls]]];
     rewrite Ls; cbn [gbind negb].
-  - rewrite L0. pose proof (Hm 1 unit inner) as HP.
-    destruct (mord 1 unit inner) as [|[x u] rest].
+  - rewrite L0.
+    (* the iteration order of this range (its site number depends on the position
+       of the function in the package) *)
+    match goal with |- context [mord ?site unit inner] =>
+      pose proof (Hm site unit inner) as HP; destruct (mord site unit inner) as [|[x u] rest]
+    end.
     + apply Permutation_nil in HP. rewrite HP.
       rewrite grange_nil. cbn [gbind map].
       eexists. eexists. split; [reflexivity|]. split; [exact W|]. split; reflexivity.
